@@ -28,6 +28,8 @@ SHAPES = [
     ("remap_uri", [[0, 0]] * 3, False, T, dict(params=dict(m=2), budget=3000, shard=9)),
     ("rewire", [[1, 1], [0, 1]], False, T, dict(params=dict(m=2), budget=3000, shard=9)),
     ("rewire", [[0, 0]] * 3, False, T, dict(params=dict(m=2), budget=3000, shard=9)),
+    ("rewire", [[1, 1], [1, 1]], False, T, dict(params=dict(m=2), budget=3000, shard=10)),
+    ("remap_uri", [[0, 2], [0, 1]], False, T, dict(params=dict(m=2), budget=3000, shard=10)),
 ]
 
 
